@@ -83,7 +83,7 @@ theorem elapsedOf_eq (t : Trace) : elapsedOf t = (retryTrace t).foldl (fun n x =
 def loopR : Req → Bool
   | .metric ev .. => ev != .retry && ev != .budgetExhausted && !isBreakerEv ev
   | .log ev .. => !isBreakerEv ev
-  | .beforeSleep .. | .attemptStart _ | .attemptEnd _ => true
+  | .beforeSleep .. | .attemptStart _ | .attemptEnd _ | .stratRecordFailure .. | .stratRecordSuccess _ => true
   | _ => false
 
 /-- `loopR`, plus (when `bx`) the `budget_exhausted` metric event, which is inert once the budget has
@@ -95,8 +95,10 @@ def loopRx (bx : Bool) (r : Req) : Bool :=
 
 theorem loopRx_false (r : Req) : loopRx false r = loopR r := by simp [loopRx]
 
-theorem step_inert (cfg : Cfg) (bx : Bool) (s : St) (x : Req × Ans) (el : Nat) (h : loopRx bx x.1 = true)
-    (hx : bx = true → s.refused = true) : step cfg s x el = s := by
+/-- an inert request moves nothing but (when it raises an abort) `sawAbort` -/
+theorem step_inert' (cfg : Cfg) (bx : Bool) (s : St) (x : Req × Ans) (el : Nat) (h : loopRx bx x.1 = true)
+    (hx : bx = true → s.refused = true) :
+    step cfg s x el = { s with sawAbort := s.sawAbort || abortRaise x } := by
   obtain ⟨r, a⟩ := x
   cases r with
   | metric ev _ _ _ =>
@@ -105,9 +107,19 @@ theorem step_inert (cfg : Cfg) (bx : Bool) (s : St) (x : Req × Ans) (el : Nat) 
       have hr : s.refused = true := hx (by simpa [loopRx, loopR] using h)
       cases s
       cases a <;> simp_all [step, abortKind, abortRaise]
-    all_goals (simp_all [loopRx, loopR, step, abortKind, abortRaise, isBreakerEv] <;> (cases a <;> simp_all))
-  | log ev _ _ _ _ => simp_all [loopRx, loopR, step, abortKind, abortRaise]; cases a <;> simp
-  | _ => simp_all [loopRx, loopR, step, abortKind, abortRaise] <;> (cases a <;> simp)
+    all_goals (simp_all [loopRx, loopR, step, abortKind, abortRaise, isBreakerEv])
+  | _ => simp_all [loopRx, loopR, step, abortKind, abortRaise]
+
+theorem abortRaise_quiet (bx : Bool) (x : Req × Ans) (h : loopRx bx x.1 = true) (hq : quietX x = true) :
+    abortRaise x = false := by
+  obtain ⟨r, a⟩ := x
+  cases a <;> simp_all [abortRaise, quietX]
+  cases r <;> simp_all [loopRx, loopR, swallowedReq, abortKind]
+
+theorem step_inert (cfg : Cfg) (bx : Bool) (s : St) (x : Req × Ans) (el : Nat) (h : loopRx bx x.1 = true)
+    (hq : quietX x = true) (hx : bx = true → s.refused = true) : step cfg s x el = s := by
+  rw [step_inert' cfg bx s x el h hx, abortRaise_quiet bx x h hq]
+  simp
 
 theorem loopR_not_prelude (bx : Bool) (r : Req) (h : loopRx bx r = true) : isPrelude r = false := by
   cases r with
@@ -142,7 +154,7 @@ theorem flt_quiet (bx : Bool) (x : Req × Ans) (t : List (Req × Ans)) (hr : loo
 structure View where
   mon : St
   flt : Bool
-  slack : Int                     -- now − start − (elapsed according to the log): 0 inside the loop
+  sync : Bool                     -- now = start + (elapsed according to the log): true inside the loop
   stop : Option StopReason        -- `last_stop_reason`
   stopOk : Bool                   -- … and its condition holds
   counts : EClass → Nat
@@ -154,7 +166,7 @@ def stopOkOf (cfg : Cfg) (m : St) (el : Nat) : Option StopReason → Bool
   | some r => stopCond cfg m el r
 
 def view (cfg : Cfg) (w : World) : View :=
-  ⟨cur cfg w.trace, flt w.trace, (w.now : Int) - w.rs.start - (clk w.trace).el, w.rs.lastStop,
+  ⟨cur cfg w.trace, flt w.trace, decide (w.now = w.rs.start + (clk w.trace).el), w.rs.lastStop,
    stopOkOf cfg (cur cfg w.trace) (clk w.trace).el w.rs.lastStop,
    w.rs.perClassCounts, w.rs.unknownAttempts, w.rs.lastExc.isNone⟩
 
@@ -180,7 +192,7 @@ theorem cur_append_quiet (cfg : Cfg) (bx : Bool) (δ t : List (Req × Ans)) (h :
     have := ih (fun y hy => h y (by simp [hy]))
     refine ⟨?_, ?_, ?_⟩
     · simp only [List.cons_append, cur_cons, this.1]
-      exact step_inert cfg bx _ x _ hx'.1 hx
+      exact step_inert cfg bx _ x _ hx'.1 hx'.2 hx
     · rw [List.cons_append, flt_quiet bx _ _ hx'.1 hx'.2, this.2.1]
     · simp only [List.cons_append, clk_cons, tick_el _ _ (loopR_not_prelude bx _ hx'.1), this.2.2, dsum]
       omega
@@ -194,7 +206,7 @@ theorem view_fq (cfg : Cfg) (bx : Bool) (w w' : World) (h : FootQ (loopRx bx) w 
   have hmono := stopOkOf_mono cfg (cur cfg w.trace) (Nat.le_add_right (clk w.trace).el (dsum δ)) w.rs.lastStop
     (by simpa [view] using hok)
   simp only [view, e, hc.1, hc.2.1, hc.2.2, hrs, t, View.mk.injEq, true_and, and_true]
-  refine ⟨by omega, ?_⟩
+  refine ⟨by simp only [decide_eq_decide]; omega, ?_⟩
   simp_all [view]
 
 
@@ -208,6 +220,12 @@ structure ExcCore (cfg : Cfg) (e : Exn) (m : St) (el : Nat) (tr : List (Req × A
   give : 1 ≤ m.ops → m.done = false → e.isException = true → e.isAbort = false → e.isExhausted = false →
     raisedBy nonOp tr e = true ∨ (e = .libValueError ∧ m.sawOther = true) ∨
     (raisedBy isOp tr e = true ∧ m.classified = true ∧ anyStop cfg m el = true)
+  grant : m.granted = true → (cfg.metric = true → m.retryEv = true) ∧
+    (m.slept = true ∨ m.decision.isSome = true ∨
+      ∀ f, e = .libExhausted f → raisedBy (fun _ => true) tr e = true ∨ f.stop = .aborted)
+
+/-- a granted token has been reported -/
+def GrantInv (cfg : Cfg) (m : St) : Prop := m.granted = true → cfg.metric = true → m.retryEv = true
 
 /-- … unless an attempt hook raised -/
 def Exc (cfg : Cfg) (e : Exn) (w : World) : Prop :=
@@ -230,7 +248,7 @@ theorem raisedBy_any_of (p : Req → Bool) (t : List (Req × Ans)) (e : Exn) (h 
 /-- a leaf that makes only inert requests failed: one of its callbacks raised -/
 theorem exc_of_fe (cfg : Cfg) (bx : Bool) {e : Exn} {w w' : World} (h : FootE (loopRx bx) e w w')
     (hx : bx = true → (view cfg w).mon.refused = true)
-    (hb : (view cfg w).mon.bad = false)
+    (hb : (view cfg w).mon.bad = false) (hg : GrantInv cfg (view cfg w).mon)
     (hm : (view cfg w).mon.mustOp = false ∨
           ∀ r d rest, w'.trace = (r, Ans.raise e d) :: rest → isAttemptHook r = true) :
     Exc cfg e w' := by
@@ -238,10 +256,11 @@ theorem exc_of_fe (cfg : Cfg) (bx : Bool) {e : Exn} {w w' : World} (h : FootE (l
   subst hd
   intro hf
   have hc := cur_append_quiet cfg bx δ' w.trace q hx
-  have hcur : cur cfg w'.trace = cur cfg w.trace := by
+  have hcur : cur cfg w'.trace =
+      { cur cfg w.trace with sawAbort := (cur cfg w.trace).sawAbort || abortRaise (r, Ans.raise e d) } := by
     rw [et]
     simp only [List.cons_append, cur_cons, hc.1]
-    exact step_inert cfg bx _ (r, Ans.raise e d) _ hr hx
+    exact step_inert' cfg bx _ (r, Ans.raise e d) _ hr hx
   have hrb : raisedBy nonOp w'.trace e = true := by
     rw [et]; exact raisedBy_head _ _ _ _ _ (by simp [nonOp, loopR_not_op bx r hr])
   have hmust : (cur cfg w.trace).mustOp = false := by
@@ -251,13 +270,14 @@ theorem exc_of_fe (cfg : Cfg) (bx : Bool) {e : Exn} {w w' : World} (h : FootE (l
       rw [et] at hf
       simp [flt_cons, hookRaise, this] at hf
   rw [hcur]
-  exact ⟨hb, hmust, fun f _ => Or.inl (raisedBy_any_of _ _ _ hrb), fun _ _ _ _ _ => Or.inl hrb⟩
+  exact ⟨hb, hmust, fun f _ => Or.inl (raisedBy_any_of _ _ _ hrb), fun _ _ _ _ _ => Or.inl hrb,
+    fun h => ⟨hg h, Or.inr (Or.inr fun f _ => Or.inl (raisedBy_any_of _ _ _ hrb))⟩⟩
 
 /-- leaf procedures: the view does not move; a failure is a callback raising -/
 theorem leaf_spec {α : Type} {x : M α} (cfg : Cfg) (bx : Bool)
     (hx : ∀ w0, ⦃fun w => ⌜FootQ (loopRx bx) w0 w⌝⦄ x ⦃fqPost (loopRx bx) w0⦄) (v : View)
     (hr : bx = true → v.mon.refused = true)
-    (hok : v.stopOk = true) (hb : v.mon.bad = false) (hm : v.mon.mustOp = false) :
+    (hok : v.stopOk = true) (hb : v.mon.bad = false) (hg : GrantInv cfg v.mon) (hm : v.mon.mustOp = false) :
     ⦃fun w => ⌜view cfg w = v⌝⦄ x ⦃post⟨fun _ w => ⌜view cfg w = v⌝, fun e w => ⌜Exc cfg e w⌝⟩⦄ := by
   apply triple_of_run
   intro w hw
@@ -265,7 +285,7 @@ theorem leaf_spec {α : Type} {x : M α} (cfg : Cfg) (bx : Bool)
   subst hw
   split <;> simp_all
   · exact view_fq cfg bx _ _ this hok hr
-  · exact exc_of_fe cfg bx this hr hb (Or.inl hm)
+  · exact exc_of_fe cfg bx this hr hb hg (Or.inl hm)
 
 /-- requests of the attempt hooks -/
 def hookR : Req → Bool
@@ -278,7 +298,7 @@ theorem hookR_loopR (r : Req) (h : hookR r = true) : loopRx false r = true := by
 /-- leaves that only call attempt hooks: a failure is outside the property's environment -/
 theorem hook_spec {α : Type} {x : M α} (cfg : Cfg)
     (hx : ∀ w0, ⦃fun w => ⌜FootQ hookR w0 w⌝⦄ x ⦃fqPost hookR w0⦄) (v : View)
-    (hok : v.stopOk = true) (hb : v.mon.bad = false) :
+    (hok : v.stopOk = true) (hb : v.mon.bad = false) (hg : GrantInv cfg v.mon) :
     ⦃fun w => ⌜view cfg w = v⌝⦄ x ⦃post⟨fun _ w => ⌜view cfg w = v⌝, fun e w => ⌜Exc cfg e w⌝⟩⦄ := by
   apply triple_of_run
   intro w hw
@@ -286,7 +306,7 @@ theorem hook_spec {α : Type} {x : M α} (cfg : Cfg)
   subst hw
   split <;> simp_all
   · exact view_fq cfg false _ _ (this.mono hookR_loopR) hok (by simp)
-  · refine exc_of_fe cfg false (this.mono hookR_loopR) (by simp) hb (Or.inr ?_)
+  · refine exc_of_fe cfg false (this.mono hookR_loopR) (by simp) hb hg (Or.inr ?_)
     obtain ⟨δ, et, _, r, d, δ', hd, hr, _⟩ := this.trace
     intro r' d' rest h'
     rw [et, hd] at h'
@@ -298,7 +318,7 @@ theorem hook_spec {α : Type} {x : M α} (cfg : Cfg)
 /-- a callback other than the operation raised and nothing caught it -/
 theorem exc_of_raise (cfg : Cfg) {w' : World} {tr : List (Req × Ans)} {r : Req} {e : Exn} {d : Nat}
     (ht : w'.trace = (r, Ans.raise e d) :: tr) (hnop : isOp r = false)
-    (hb : (cur cfg w'.trace).bad = false)
+    (hb : (cur cfg w'.trace).bad = false) (hg : GrantInv cfg (cur cfg w'.trace))
     (hm : (cur cfg w'.trace).mustOp = false ∨ isAttemptHook r = true) : Exc cfg e w' := by
   intro hf
   have hrb : raisedBy nonOp w'.trace e = true := by
@@ -308,7 +328,8 @@ theorem exc_of_raise (cfg : Cfg) {w' : World} {tr : List (Req × Ans)} {r : Req}
     · exact hm
     · rw [ht] at hf
       simp [flt_cons, hookRaise, hm] at hf
-  exact ⟨hb, hmust, fun f _ => Or.inl (raisedBy_any_of _ _ _ hrb), fun _ _ _ _ _ => Or.inl hrb⟩
+  exact ⟨hb, hmust, fun f _ => Or.inl (raisedBy_any_of _ _ _ hrb), fun _ _ _ _ _ => Or.inl hrb,
+    fun h => ⟨hg h, Or.inr (Or.inr fun f _ => Or.inl (raisedBy_any_of _ _ _ hrb))⟩⟩
 
 /-! ### leaf procedures -/
 
@@ -321,7 +342,8 @@ def plainEv (bx : Bool) (ev : Event) : Bool :=
 
 section leaves
 variable (cfg : Cfg) (tl : Bool) (v : View) (hok : v.stopOk = true) (hb : v.mon.bad = false)
-include hok hb
+  (hg : GrantInv cfg v.mon)
+include hok hb hg
 
 theorem emit_v (hm : v.mon.mustOp = false) (ev : Event) (hev : plainEv v.mon.refused ev = true) (a s : Nat)
     (k : Option EClass) (e : Option Exn) (st : Option StopReason) (c : Option Cause)
@@ -329,30 +351,40 @@ theorem emit_v (hm : v.mon.mustOp = false) (ev : Event) (hev : plainEv v.mon.ref
     ⦃fun w => ⌜view cfg w = v⌝⦄ emit cfg tl ev a s k e st c cl ⦃leafPost cfg v⦄ :=
   leaf_spec cfg v.mon.refused (fun w0 => emit_fq (loopRx v.mon.refused) w0 cfg tl ev a s k e st c cl
     (fun _ => by cases ev <;> simp_all [loopRx, loopR, plainEv])
-    (fun _ _ => by cases ev <;> simp_all [loopRx, loopR, plainEv])) v id hok hb hm
+    (fun _ _ => by cases ev <;> simp_all [loopRx, loopR, plainEv])) v id hok hb hg hm
 
 theorem callBeforeSleep_v (hm : v.mon.mustOp = false) (ctx : BackoffCtx) (s : Nat) :
     ⦃fun w => ⌜view cfg w = v⌝⦄ callBeforeSleep cfg ctx s ⦃leafPost cfg v⦄ :=
   leaf_spec cfg false (fun w0 => callBeforeSleep_fq (loopRx false) w0 cfg ctx s (fun _ => rfl)) v (by simp)
-    hok hb hm
+    hok hb hg hm
+
+theorem stratRecordFailure_v (hm : v.mon.mustOp = false) (key : SKey) (k : EClass) :
+    ⦃fun w => ⌜view cfg w = v⌝⦄ stratRecordFailure cfg key k ⦃leafPost cfg v⦄ :=
+  leaf_spec cfg false (fun w0 => stratRecordFailure_fq (loopRx false) w0 cfg key k rfl) v (by simp)
+    hok hb hg hm
+
+theorem handleSuccessAttemptEnd_v (hm : v.mon.mustOp = false) (a x : Nat) :
+    ⦃fun w => ⌜view cfg w = v⌝⦄ handleSuccessAttemptEnd cfg tl a x ⦃leafPost cfg v⦄ :=
+  leaf_spec cfg false (fun w0 => handleSuccessAttemptEnd_fq (loopRx false) w0 cfg tl a x
+    (fun _ => rfl) (fun _ _ => rfl) (fun _ => rfl) (fun _ => rfl)) v (by simp) hok hb hg hm
 
 theorem callAttemptStart_v (a : Nat) :
     ⦃fun w => ⌜view cfg w = v⌝⦄ callAttemptStart cfg a ⦃leafPost cfg v⦄ :=
-  hook_spec cfg (fun w0 => callAttemptStart_fq hookR w0 cfg a (fun _ => rfl)) v hok hb
+  hook_spec cfg (fun w0 => callAttemptStart_fq hookR w0 cfg a (fun _ => rfl)) v hok hb hg
 
 theorem callAttemptEnd_v (a : Nat) (cls : Option Classification) (exc : Option Exn) (result : Option Nat)
     (d : AttemptDecision) (stop : Option StopReason) (cause : Option Cause) (sleep : Option Nat) :
     ⦃fun w => ⌜view cfg w = v⌝⦄ callAttemptEnd cfg a cls exc result d stop cause sleep ⦃leafPost cfg v⦄ :=
   hook_spec cfg (fun w0 => callAttemptEnd_fq hookR w0 cfg a cls exc result d stop cause sleep (fun _ => rfl))
-    v hok hb
+    v hok hb hg
 
 theorem callAttemptEndFromOutcome_v (a : Nat) (o : AOutcome) :
     ⦃fun w => ⌜view cfg w = v⌝⦄ callAttemptEndFromOutcome cfg a o ⦃leafPost cfg v⦄ :=
-  hook_spec cfg (fun w0 => callAttemptEndFromOutcome_fq hookR w0 cfg a o (fun _ => rfl)) v hok hb
+  hook_spec cfg (fun w0 => callAttemptEndFromOutcome_fq hookR w0 cfg a o (fun _ => rfl)) v hok hb hg
 
 theorem handleAbortAttemptEnd_v (a : Nat) (e : Exn) :
     ⦃fun w => ⌜view cfg w = v⌝⦄ handleAbortAttemptEnd cfg a e ⦃leafPost cfg v⦄ :=
-  hook_spec cfg (fun w0 => handleAbortAttemptEnd_fq hookR w0 cfg a e (fun _ => rfl)) v hok hb
+  hook_spec cfg (fun w0 => handleAbortAttemptEnd_fq hookR w0 cfg a e (fun _ => rfl)) v hok hb hg
 
 end leaves
 
@@ -365,23 +397,25 @@ end leaves
 /-- the run ends with an exception that is neither an attempt failure nor a report of exhaustion -/
 theorem exc_plain (cfg : Cfg) {w' : World} {e : Exn} (hne : ∀ f, e ≠ .libExhausted f)
     (hg : e.isException = false ∨ e.isAbort = true ∨ e.isExhausted = true)
-    (hb : (cur cfg w'.trace).bad = false) (hm : flt w'.trace = false → (cur cfg w'.trace).mustOp = false) :
+    (hb : (cur cfg w'.trace).bad = false) (hm : flt w'.trace = false → (cur cfg w'.trace).mustOp = false)
+    (hgr : GrantInv cfg (cur cfg w'.trace)) :
     Exc cfg e w' := by
   intro hf
-  refine ⟨hb, hm hf, fun f h => absurd h (hne f), fun _ _ h1 h2 h3 => ?_⟩
+  refine ⟨hb, hm hf, fun f h => absurd h (hne f), fun _ _ h1 h2 h3 => ?_,
+    fun h => ⟨hgr h, Or.inr (Or.inr fun f h => absurd h (hne f))⟩⟩
   rcases hg with h | h | h <;> simp_all
 
 /-! #### phases of an attempt (predicates on the view) -/
 
 /-- inside attempt `n`: the operation has been called, the run has not stopped, no backoff yet -/
 def Core (cfg : Cfg) (n : Nat) (v : View) : Prop :=
-  v.mon.ops = n ∧ 1 ≤ n ∧ n ≤ cfg.maxAttempts ∧ v.mon.bad = false ∧ v.flt = false ∧ v.slack = 0 ∧
-  v.stop = none ∧ v.stopOk = true ∧ v.mon.mustOp = false ∧ v.mon.decision = none ∧ v.mon.slept = false ∧
-  v.mon.refused = false
+  v.mon.ops = n ∧ 1 ≤ n ∧ n ≤ cfg.maxAttempts ∧ v.mon.bad = false ∧ v.flt = false ∧ v.sync = true ∧
+  v.stop = none ∧ v.stopOk = true ∧ v.mon.mustOp = false ∧ v.mon.decision = none ∧ v.mon.slept = false
 
 /-- no strategy has been asked in this attempt -/
 def NoStrat (v : View) : Prop :=
-  v.mon.strat = false ∧ v.mon.granted = false ∧ v.mon.retryEv = false ∧ v.mon.pollFalse = false
+  v.mon.strat = false ∧ v.mon.granted = false ∧ v.mon.retryEv = false ∧ v.mon.pollFalse = false ∧
+  v.mon.refused = false
 
 /-- the runner's failure counters agree with the log -/
 def CntOK (v : View) : Prop :=
@@ -389,7 +423,7 @@ def CntOK (v : View) : Prop :=
 
 /-- the top of the loop after `n` attempts -/
 def Rel (cfg : Cfg) (n : Nat) (v : View) : Prop :=
-  v.mon.ops = n ∧ v.mon.bad = false ∧ v.mon.done = false ∧ v.flt = false ∧ v.slack = 0 ∧ v.stop = none ∧
+  v.mon.ops = n ∧ v.mon.bad = false ∧ v.mon.done = false ∧ v.flt = false ∧ v.sync = true ∧ v.stop = none ∧
   v.stopOk = true ∧ CntOK v ∧ (1 ≤ n → v.mon.slept = true) ∧ (n = 0 → v.noExc = true ∧ v.mon.mustOp = false) ∧
   (n = 0 ∨ n < cfg.maxAttempts)
 
@@ -408,14 +442,102 @@ def ClsB (k : EClass) (v : View) : Prop :=
 def ClsC (k : EClass) (v : View) : Prop :=
   v.mon.classified = true ∧ v.mon.lastClass = some k ∧ CntOK v
 
+/-- the strategy has computed a delay; the budget has not been consulted -/
+def Strat (cfg : Cfg) (n : Nat) (v : View) : Prop :=
+  Core cfg n v ∧ v.mon.strat = true ∧ v.mon.granted = false ∧ v.mon.retryEv = false ∧
+  v.mon.pollFalse = false ∧ v.mon.refused = false ∧ n < cfg.maxAttempts ∧ v.mon.done = false
+
+/-- the budget granted a token (or there is no budget) -/
+def Gr (cfg : Cfg) (n : Nat) (v : View) : Prop :=
+  Core cfg n v ∧ v.mon.strat = true ∧ v.mon.granted = cfg.budget.isSome ∧ v.mon.pollFalse = false ∧
+  v.mon.refused = false ∧ n < cfg.maxAttempts ∧ v.mon.done = false
+
+/-- the budget refused -/
+def Refd (cfg : Cfg) (n : Nat) (v : View) : Prop :=
+  Core cfg n v ∧ v.mon.strat = true ∧ v.mon.granted = false ∧ v.mon.refused = true ∧ v.mon.done = false
+
+/-- reasons with which a failed attempt stops the run -/
+def isFailure : StopReason → Bool
+  | .aborted | .scheduled => false
+  | _ => true
+
+/-- the failure handler has decided to stop with reason `r` -/
+def Stopped (n : Nat) (r : StopReason) (v : View) : Prop :=
+  v.mon.ops = n ∧ 1 ≤ n ∧ v.mon.bad = false ∧ v.flt = false ∧ v.mon.mustOp = false ∧ v.mon.done = false ∧
+  v.stop = some r ∧ v.stopOk = true ∧ v.mon.classified = true ∧ isFailure r = true ∧
+  (v.mon.granted = true → v.mon.slept = true)
+
+@[simp] theorem dur_unit (d : Nat) : (Ans.unit d).dur = d := rfl
+@[simp] theorem dur_bool (b : Bool) (d : Nat) : (Ans.bool b d).dur = d := rfl
+@[simp] theorem dur_value (v d : Nat) : (Ans.value v d).dur = d := rfl
+@[simp] theorem dur_klass (c : Classification) (d : Nat) : (Ans.klass c d).dur = d := rfl
+@[simp] theorem dur_noFailure (d : Nat) : (Ans.noFailure d).dur = d := rfl
+@[simp] theorem dur_delay (s : SOut) (d : Nat) : (Ans.delay s d).dur = d := rfl
+@[simp] theorem dur_decision (x : SleepDecision) (d : Nat) : (Ans.decision x d).dur = d := rfl
+@[simp] theorem dur_raise (e : Exn) (d : Nat) : (Ans.raise e d).dur = d := rfl
+@[simp] theorem dur_granted (b : Bool) : (Ans.granted b).dur = 0 := rfl
+@[simp] theorem stuck_isException : Exn.stuck.isException = false := rfl
+@[simp] theorem stuck_isAbort : Exn.stuck.isAbort = false := rfl
+@[simp] theorem stuck_isExhausted : Exn.stuck.isExhausted = false := rfl
+@[simp] theorem libAbort_isAbort : Exn.libAbort.isAbort = true := rfl
+@[simp] theorem libAbort_isException : Exn.libAbort.isException = true := rfl
+@[simp] theorem libValueError_isException : Exn.libValueError.isException = true := rfl
+@[simp] theorem libValueError_isAbort : Exn.libValueError.isAbort = false := rfl
+@[simp] theorem libValueError_isExhausted : Exn.libValueError.isExhausted = false := rfl
+@[simp] theorem libExhausted_isExhausted (f : ExhaustedFields) : (Exn.libExhausted f).isExhausted = true := rfl
+@[simp] theorem libExhausted_isAbort (f : ExhaustedFields) : (Exn.libExhausted f).isAbort = false := rfl
+
+/-- a confirmed success in attempt `n` -/
+def Succ (n : Nat) (v : View) : Prop :=
+  v.mon.ops = n ∧ 1 ≤ n ∧ v.mon.bad = false ∧ v.flt = false ∧ v.mon.mustOp = false ∧ v.mon.done = true ∧
+  v.stop = none ∧ v.stopOk = true ∧ v.mon.granted = false
+
+/-- the failure handler is about to stop the run -/
+def PreStop (n : Nat) (v : View) : Prop :=
+  v.mon.ops = n ∧ 1 ≤ n ∧ v.mon.bad = false ∧ v.flt = false ∧ v.mon.mustOp = false ∧ v.mon.done = false ∧
+  v.stop = none ∧ v.sync = true ∧ v.mon.classified = true ∧ v.mon.granted = false
+
 /-- simp set that turns statements about the view of an explicit world into statements about fields -/
-macro "c03_simp" : tactic => `(tactic|
-  simp_all +zetaDelta [Core, NoStrat, CntOK, Rel, ClsA, ClsB, ClsC, bumpCount, view, cur_cons, clk_cons, flt_cons, hookRaise, Clock.tick,
+syntax "c03_simp" : tactic
+macro_rules | `(tactic| c03_simp) => `(tactic|
+  simp_all +zetaDelta [GrantInv, Core, NoStrat, CntOK, Rel, ClsA, ClsB, ClsC, bumpCount, view, cur_cons, clk_cons, flt_cons, hookRaise, Clock.tick,
     isPrelude, step, classify, abortKind, abortRaise, isAttemptHook, stopOkOf, raisedBy, isOp,
     Exn.isException, Exn.isAbort, Exn.isExhausted, Ans.dur])
 
 macro "c03_close" : tactic => `(tactic| all_goals (
   (try subst_vars) <;> (try c03_simp) <;> (try (and_intros <;> (try simp_all [Ans.dur]) <;> omega))))
+
+/-! the view does not look at these parts of the world -/
+@[simp] theorem view_prevSleep (cfg : Cfg) (s : World) (x : Option Nat) :
+    view cfg { s with rs := { s.rs with prevSleep := x } } = view cfg s := rfl
+@[simp] theorem view_lastStrategy (cfg : Cfg) (s : World) (x : Option SKey) :
+    view cfg { s with rs := { s.rs with lastStrategy := x } } = view cfg s := rfl
+@[simp] theorem view_as (cfg : Cfg) (s : World) (x : AState) : view cfg { s with as := x } = view cfg s := rfl
+@[simp] theorem view_attempts (cfg : Cfg) (s : World) (x : Nat) :
+    view cfg { s with attempts := x } = view cfg s := rfl
+@[simp] theorem view_opCalls (cfg : Cfg) (s : World) (x : Nat) :
+    view cfg { s with opCalls := x } = view cfg s := rfl
+
+/-- what the failure handler leaves behind -/
+def Decided (cfg : Cfg) (n : Nat) (d : Decision) (v : View) : Prop :=
+  match d with
+  | .raise => ∃ r, Stopped n r v
+  | .retry _ _ => Gr cfg n v ∧ CntOK v ∧ v.mon.retryEv = cfg.metric ∧ v.mon.classified = true
+
+/-- unfold the phase predicates, keep the view folded -/
+syntax "c03_phase" : tactic
+macro_rules | `(tactic| c03_phase) => `(tactic|
+  simp_all +zetaDelta [Decided, GrantInv, PreStop, plainEv, isBreakerEv, Strat, Gr, Refd, Stopped, isFailure, Succ,
+    Core, NoStrat, CntOK, Rel, ClsA, ClsB, ClsC, stopCond])
+
+/-- chaining goals: first with the phases folded, then unfolded -/
+macro "c03_chain" : tactic => `(tactic| all_goals (
+  (try intros) <;> (try subst_vars) <;>
+  first
+    | (simp_all +zetaDelta; done)
+    | (exact ⟨_, by assumption⟩)
+    | (c03_phase; done)
+    | skip))
 
 /-- the operation is invoked -/
 theorem invokeOp_spec (cfg : Cfg) (n : Nat) (u : View) (hr : Rel cfg n u) (hn : n < cfg.maxAttempts)
@@ -435,8 +557,8 @@ theorem invokeOp_spec (cfg : Cfg) (n : Nat) (u : View) (hr : Rel cfg n u) (hn : 
 
 /-- goals `Exc cfg e W` for an explicit world `W` whose newest exchange is the failing one -/
 macro "c03_exc" : tactic => `(tactic| first
-  | (refine exc_of_raise _ rfl rfl ?_ ?_ <;> c03_simp; done)
-  | (refine exc_plain _ (by simp) (by simp [Exn.isException, Exn.isAbort]) ?_ ?_ <;> c03_simp; done))
+  | (refine exc_of_raise _ rfl rfl ?_ ?_ ?_ <;> c03_simp; done)
+  | (refine exc_plain _ (by simp) (by simp) ?_ ?_ ?_ <;> c03_simp; done))
 
 macro "c03_done" : tactic => `(tactic| all_goals (
   (try subst_vars) <;>
@@ -466,15 +588,10 @@ theorem callClassifier_spec (cfg : Cfg) (n : Nat) (u : View) (hc : Core cfg n u)
   c03_done
 
 
-/-- a confirmed success in attempt `n` -/
-def Succ (n : Nat) (v : View) : Prop :=
-  v.mon.ops = n ∧ 1 ≤ n ∧ v.mon.bad = false ∧ v.flt = false ∧ v.mon.mustOp = false ∧ v.mon.done = true ∧
-  v.stop = none ∧ v.stopOk = true ∧ v.mon.granted = false
-
-macro "c03_simp" : tactic => `(tactic|
-  simp_all +zetaDelta [Succ, Core, NoStrat, CntOK, Rel, ClsA, ClsB, ClsC, bumpCount, view, cur_cons, clk_cons,
+macro_rules | `(tactic| c03_simp) => `(tactic|
+  simp_all +zetaDelta [GrantInv, Succ, Core, NoStrat, CntOK, Rel, ClsA, ClsB, ClsC, bumpCount, view, cur_cons, clk_cons,
     flt_cons, hookRaise, Clock.tick, isPrelude, step, classify, abortKind, abortRaise, isAttemptHook, stopOkOf,
-    raisedBy, isOp, Exn.isException, Exn.isAbort, Exn.isExhausted, Ans.dur])
+    raisedBy, isOp])
 
 theorem shouldClassifyResult_spec (cfg : Cfg) (n : Nat) (u : View) (hc : Core cfg n u) (hn : NoStrat u)
     (hk : CntOK u) (hcl : u.mon.classified = false) (hd : u.mon.done = !cfg.resultClassifier) (x : Nat) :
@@ -492,15 +609,99 @@ theorem shouldClassifyResult_spec (cfg : Cfg) (n : Nat) (u : View) (hc : Core cf
 def pollV (cfg : Cfg) (u : View) : View :=
   if cfg.abortIf then { u with mon := { u.mon with pollFalse := u.mon.pollFalse || u.mon.strat } } else u
 
+macro_rules | `(tactic| c03_simp) => `(tactic|
+  simp_all +zetaDelta [Decided, PreStop, plainEv, isBreakerEv, GrantInv, Strat, Gr, Refd, Stopped, isFailure, pollV, stopCond, Succ, Core, NoStrat, CntOK, Rel, ClsA, ClsB, ClsC, bumpCount, view, cur_cons,
+    clk_cons, flt_cons, hookRaise, Clock.tick, isPrelude, step, classify, abortKind, abortRaise, isAttemptHook,
+    stopOkOf, raisedBy, isOp])
+
 /-- `check_abort`: a poll that answers False changes nothing but `pollFalse`; True ends the run -/
 theorem checkAbort_spec (cfg : Cfg) (tl : Bool) (u : View) (hs : u.stop = none) (hb : u.mon.bad = false)
-    (a : Nat) :
+    (hg : GrantInv cfg u.mon) (a : Nat) :
     ⦃fun w => ⌜view cfg w = u⌝⦄ checkAbort cfg tl a
     ⦃post⟨fun _ w => ⌜view cfg w = pollV cfg u⌝, fun e w => ⌜Exc cfg e w⌝⟩⦄ := by
-  have he := fun v hok hb hm => emit_v cfg tl v hok hb hm .aborted rfl a 0 none none (some .aborted) none none
+  have he := fun v hok hb hg hm => emit_v cfg tl v hok hb hg hm .aborted (by simp [plainEv, isBreakerEv]) a 0
+    none none (some .aborted) none none
   mvcgen [checkAbort, ask, setStop, modifyRS, he]
+  all_goals (clear he)
   c03_done
-  all_goals (simp_all [pollV])
-  all_goals (trace_state; sorry)
+
+
+theorem callStrategy_spec (cfg : Cfg) (n : Nat) (u : View) (k : EClass) (hc : Core cfg n u) (hn : NoStrat u)
+    (hk : ClsC k u) (hd : u.mon.done = false) (hlt : n < cfg.maxAttempts) (key : SKey) (kind : SKind)
+    (ctx : BackoffCtx) :
+    ⦃fun w => ⌜view cfg w = u⌝⦄ callStrategy key kind ctx
+    ⦃post⟨fun _ w => ⌜Strat cfg n (view cfg w) ∧ ClsC k (view cfg w)⌝, fun e w => ⌜Exc cfg e w⌝⟩⦄ := by
+  simp only [Core, NoStrat, ClsC, CntOK] at hc hn hk
+  mvcgen [callStrategy, ask]
+  c03_done
+
+theorem budgetConsume_spec (cfg : Cfg) (n : Nat) (u : View) (k : EClass) (hc : Strat cfg n u) (hk : ClsC k u) :
+    ⦃fun w => ⌜view cfg w = u⌝⦄ budgetConsume cfg
+    ⦃post⟨fun g w => ⌜ClsC k (view cfg w) ∧ (view cfg w).mon.retryEv = false ∧
+                      (g = true → Gr cfg n (view cfg w)) ∧ (g = false → Refd cfg n (view cfg w))⌝,
+          fun e w => ⌜Exc cfg e w⌝⟩⦄ := by
+  simp only [Strat, Core, ClsC, CntOK] at hc hk
+  mvcgen [budgetConsume]
+  c03_done
+
+
+/-- the `retry` event: reported to the metric hook exactly when one is configured -/
+theorem emit_retry_spec (cfg : Cfg) (tl : Bool) (n : Nat) (u : View) (kc : EClass) (hc : Gr cfg n u)
+    (hk : ClsC kc u) (hr : u.mon.retryEv = false)
+    (a s : Nat) (k : Option EClass) (e : Option Exn) (st : Option StopReason) (c : Option Cause)
+    (cl : Option Classification) :
+    ⦃fun w => ⌜view cfg w = u⌝⦄ emit cfg tl .retry a s k e st c cl
+    ⦃post⟨fun _ w => ⌜Gr cfg n (view cfg w) ∧ ClsC kc (view cfg w) ∧
+                      (view cfg w).mon.retryEv = cfg.metric⌝,
+          fun e w => ⌜Exc cfg e w⌝⟩⦄ := by
+  simp only [Gr, Core, ClsC, CntOK] at hc hk
+  mvcgen [emit, metricHook, askMetric, askLog, ask, swallowException, recordTimeline]
+  c03_done
+
+
+/-- terminal branch of `_handle_failure` (reasons other than the deadline): the reason's condition holds -/
+theorem stopWith_spec (cfg : Cfg) (tl : Bool) (n : Nat) (u : View) (r : StopReason) (ev : Event)
+    (hp : PreStop n u) (hf : isFailure r = true) (hev : plainEv u.mon.refused ev = true)
+    (hcond : ∀ el, stopCond cfg u.mon el r = true)
+    (a : Nat) (k : EClass) (exc : Option Exn) (cause : Cause) :
+    ⦃fun w => ⌜view cfg w = u⌝⦄ stopWith cfg tl r ev a k exc cause
+    ⦃post⟨fun d w => ⌜d = .raise ∧ Stopped n r (view cfg w)⌝, fun e w => ⌜Exc cfg e w⌝⟩⦄ := by
+  have he := fun v hok hb hg hm hev =>
+    emit_v cfg tl v hok hb hg hm ev hev a 0 (some k) exc (some r) (some cause) none
+  simp only [PreStop] at hp
+  mvcgen [stopWith, setStop, modifyRS, he]
+  all_goals (clear he)
+  c03_done
+
+
+theorem grantRetry_spec (cfg : Cfg) (tl : Bool) (n : Nat) (u : View) (c : Classification) (hc : Core cfg n u)
+    (hn : NoStrat u) (hk : ClsC c.klass u) (hd : u.mon.done = false) (hlt : n < cfg.maxAttempts)
+    (a : Nat) (cause : Cause) (e : Option Exn) (key : SKey) (kind : SKind) (rem : Nat) :
+    ⦃fun w => ⌜view cfg w = u⌝⦄ grantRetry cfg tl c a cause e key kind rem
+    ⦃post⟨fun d w => ⌜Decided cfg n d (view cfg w)⌝, fun e w => ⌜Exc cfg e w⌝⟩⦄ := by
+  have h1 := fun u hc hn hk hd ctx => callStrategy_spec cfg n u c.klass hc hn hk hd hlt key kind ctx
+  have h2 := fun u hc hk => budgetConsume_spec cfg n u c.klass hc hk
+  have h3 := fun u hc hk hr s => emit_retry_spec cfg tl n u c.klass hc hk hr a s (some c.klass) e none
+    (some cause) (some c)
+  have h4 := fun u hp hev hcond => stopWith_spec cfg tl n u .budgetExhausted .budgetExhausted hp rfl hev hcond
+    a c.klass e cause
+  mvcgen [grantRetry, getRS, modifyRS, h1, h2, h3, h4]
+  all_goals (clear h1 h2 h3 h4)
+  c03_chain
+
+theorem handleFailure2_spec (cfg : Cfg) (tl : Bool) (n : Nat) (u : View) (c : Classification)
+    (hc : Core cfg n u) (hn : NoStrat u) (hk : ClsC c.klass u) (hd : u.mon.done = false)
+    (cause : Cause) (e : Option Exn) :
+    ⦃fun w => ⌜view cfg w = u⌝⦄ handleFailure2 cfg tl c n cause e
+    ⦃post⟨fun d w => ⌜Decided cfg n d (view cfg w)⌝, fun e w => ⌜Exc cfg e w⌝⟩⦄ := by
+  have he := fun v hok hb hg hm ev hev r =>
+    emit_v cfg tl v hok hb hg hm ev hev n 0 (some c.klass) e (some r) (some cause) none
+  have h1 := fun v hok hb hg hm key => stratRecordFailure_v cfg v hok hb hg hm key c.klass
+  have h2 := fun u hc hn hk hd hlt key kind rem =>
+    grantRetry_spec cfg tl n u c hc hn hk hd hlt n cause e key kind rem
+  mvcgen [handleFailure2, elapsed, modifyRS, stopWith, setStop, he, h1, h2]
+  all_goals (clear he h1 h2)
+  c03_chain
+  c03_done
 
 end Redress.Props.C03
